@@ -212,16 +212,20 @@ fn run_plan(kind: Kind, plan: &Plan, rt: &tokio::runtime::Runtime, log: &Arc<Log
         while !go_s.load(Ordering::SeqCst) && t0.elapsed() < Duration::from_secs(5) { std::thread::sleep(Duration::from_millis(1)); }
         let mut answered: Vec<(u64, u64)> = vec![];
         let mut n_answered = 0usize;
+        // closing with requests unread (or still arriving) makes the kernel reset the connection instead of shutting it
+        // down in order, and a reset discards whatever the client has not read yet: tag 1 = lossy
+        let unread = (plan_s.read < plan_s.callers || plan_s.big_writer) as u64;
         let fault_now = |srv: &mut Srv, k: &str, log: &Arc<Log>, r: &mut StdRng| {
             match k {
-                "close" => { log.push(json!({"ev": "srv", "kind": "close", "id": 0, "tag": 0})); srv.close(false); }
-                "reset" => { log.push(json!({"ev": "srv", "kind": "close", "id": 0, "tag": 0})); srv.close(true); }
-                "malformed" => { log.push(json!({"ev": "srv", "kind": "malformed", "id": 0, "tag": 0})); srv.send_text(); }
+                "close" => { log.push(json!({"ev": "srv", "kind": "close", "id": 0, "tag": unread})); srv.close(false); }
+                "reset" => { log.push(json!({"ev": "srv", "kind": "close", "id": 0, "tag": 1})); srv.close(true); }
+                "malformed" => { log.push(json!({"ev": "srv", "kind": "malformed", "id": 0, "tag": 0})); srv.send_text(); log.push(json!({"ev": "srv", "kind": "close", "id": 0, "tag": unread})); }
                 "badlen" => {
                     log.push(json!({"ev": "srv", "kind": "malformed", "id": 0, "tag": 0}));
                     let mut f = resp_frame(1, 1);
                     f[0] ^= 0x55; // declared total no longer 48 + q + b
                     srv.send(&f);
+                    log.push(json!({"ev": "srv", "kind": "close", "id": 0, "tag": unread}));
                 }
                 "hugelen" => {
                     log.push(json!({"ev": "srv", "kind": "malformed", "id": 0, "tag": 0}));
@@ -229,6 +233,7 @@ fn run_plan(kind: Kind, plan: &Plan, rt: &tokio::runtime::Runtime, log: &Arc<Log
                     f[24..32].copy_from_slice(&u64::MAX.to_le_bytes());
                     f[0..8].copy_from_slice(&47u64.to_le_bytes());
                     srv.send(&f);
+                    log.push(json!({"ev": "srv", "kind": "close", "id": 0, "tag": unread}));
                 }
                 "badlen_open" | "malformed_open" => {
                     // a malformed frame, but the socket stays open and the peer keeps reading (without ever answering)
@@ -244,7 +249,7 @@ fn run_plan(kind: Kind, plan: &Plan, rt: &tokio::runtime::Runtime, log: &Arc<Log
                 }
                 "truncated" => {
                     // a prefix of a valid response, then the connection closes
-                    log.push(json!({"ev": "srv", "kind": "close", "id": 0, "tag": 0}));
+                    log.push(json!({"ev": "srv", "kind": "close", "id": 0, "tag": unread}));
                     let f = resp_frame(7, 7);
                     let cut = [1usize, 47, 48, 51, f.len() - 1][r.gen_range(0..5)];
                     if let Srv::Tcp(s) = srv { let _ = s.write_all(&f[..cut]); }
